@@ -65,6 +65,7 @@ type itr struct {
 	worldExt  map[string]string // methods of the translated struct itself kept as state-threading externs
 	effFn     map[string]string // package-level functions (`toIds`, `ecs.TypeID`) kept as state-threading externs; object arguments are dropped
 	inject    map[string]string // concrete type -> injection into an interface-typed location (uninterpreted constructor)
+	assertExt map[string]string // `x.(*T)` for a translated struct T -> extern (none = the assertion panics)
 	earlyItems string           // inside a loop with early returns: the loop state without the recorded result
 	srcExt    map[string]string // calls identified by their source text (`q.world.closeQuery`) kept as state-threading externs writing through their first argument
 	selfRet   bool              // builder methods return their receiver: that result is dropped
@@ -1572,6 +1573,19 @@ func (t *itr) stmts(list []ast.Stmt, ind string) []string {
 		if x.Tok != token.DEFINE && x.Tok != token.ASSIGN {
 			return append(out, ind+t.fail("unsupported assignment operator %s", x.Tok))
 		}
+		if len(x.Lhs) == 1 && len(x.Rhs) == 1 && x.Tok == token.DEFINE {
+			if ta, ok := x.Rhs[0].(*ast.TypeAssertExpr); ok {
+				tn := strings.TrimPrefix(types.ExprString(ta.Type), "*")
+				if ext, ok := t.assertExt[tn]; ok {
+					// v := x.(*T) for a translated struct T: the value behind the interface (a failed assertion panics)
+					if id, ok := x.Lhs[0].(*ast.Ident); ok {
+						pre = append(pre, fmt.Sprintf("let %s ← %s %s", id.Name, ext, t.expr(ta.X, &pre)))
+						emit(pre)
+						return append(out, t.stmts(rest, ind)...)
+					}
+				}
+			}
+		}
 		if len(x.Lhs) == 1 && len(x.Rhs) == 1 && x.Tok == token.ASSIGN && t.inject != nil {
 			if _, isIface := t.typeOf(x.Lhs[0]).Underlying().(*types.Interface); isIface {
 				if v, ok := t.injected(x.Rhs[0], &pre); ok {
@@ -1810,10 +1824,10 @@ func (t *itr) stmts(list []ast.Stmt, ind string) []string {
 		}
 		return append(out, t.stmts(rest, ind)...)
 	case *ast.ForStmt:
-		if lines, ok := t.countLoop(x, rest, ind); ok {
+		if lines, ok := t.searchLoop(x, rest, ind); ok {
 			return append(out, lines...)
 		}
-		if lines, ok := t.searchLoop(x, rest, ind); ok {
+		if lines, ok := t.countLoop(x, rest, ind); ok {
 			return append(out, lines...)
 		}
 		if lines, ok := t.incLoop(x, rest, ind); ok {
@@ -1999,6 +2013,7 @@ func (t *itr) rangeLoop(x *ast.RangeStmt, rest []ast.Stmt, ind string) ([]string
 		declared[v.Name] = true
 	}
 	bad := false
+	hasRet := false
 	hasBreak := false
 	ast.Inspect(x.Body, func(n ast.Node) bool {
 		switch s := n.(type) {
@@ -2021,7 +2036,10 @@ func (t *itr) rangeLoop(x *ast.RangeStmt, rest []ast.Stmt, ind string) ([]string
 				}
 			}
 		case *ast.ReturnStmt:
-			bad = true
+			if len(t.curResT) == 0 {
+				bad = true
+			}
+			hasRet = true
 		case *ast.BranchStmt:
 			if s.Tok == token.BREAK {
 				hasBreak = true
@@ -2104,13 +2122,17 @@ func (t *itr) rangeLoop(x *ast.RangeStmt, rest []ast.Stmt, ind string) ([]string
 	iN := keyName + "N"
 	out = append(out, fmt.Sprintf("%slet %s := (%s).size", ind, n, xs))
 	st := t.stateTuple()
-	out = append(out, fmt.Sprintf("%slet %s ← (List.range %s).foldlM (fun %s %s => do", ind, st, n, st, iN))
+	ef := t.earlyFold(hasRet, st)
+	out = append(out, fmt.Sprintf("%slet %s ← (List.range %s).foldlM (fun %s %s => do", ind, ef.bind, n, ef.pat, iN))
 	bi := ind + "    "
+	if hasRet {
+		out = append(out, fmt.Sprintf("%sif %s.isSome then pure %s else", bi, ef.rv, ef.bind))
+	}
 	out = append(out, fmt.Sprintf("%slet %s : Int := ((%s : Nat) : Int)", bi, keyName, iN))
 	bodyInd := bi
 	if brk != "" {
 		// after a `break` the remaining rounds do nothing
-		out = append(out, fmt.Sprintf("%sif %s then pure %s else", bi, brk, st))
+		out = append(out, fmt.Sprintf("%sif %s then pure %s else", bi, brk, ef.bind))
 		bodyInd = bi + "  "
 	}
 	if v, ok := x.Value.(*ast.Ident); ok && v.Name != "_" {
@@ -2129,8 +2151,11 @@ func (t *itr) rangeLoop(x *ast.RangeStmt, rest []ast.Stmt, ind string) ([]string
 	savedBrk := t.brkVar
 	t.brkVar = brk
 	bi = bodyInd
-	savedLoopVar := t.loopVar
-	t.loopVar = st
+	savedLoopVar, savedEarly := t.loopVar, t.earlyItems
+	t.loopVar = ef.cont
+	if hasRet {
+		t.earlyItems = ef.items
+	}
 	savedAlias := t.alias
 	t.alias = map[string]ast.Expr{}
 	for k, v := range savedAlias {
@@ -2138,9 +2163,16 @@ func (t *itr) rangeLoop(x *ast.RangeStmt, rest []ast.Stmt, ind string) ([]string
 	}
 	out = append(out, t.stmts(x.Body.List, bi)...)
 	t.alias = savedAlias
-	t.loopVar = savedLoopVar
+	t.loopVar, t.earlyItems = savedLoopVar, savedEarly
 	t.brkVar = savedBrk
-	out = append(out, fmt.Sprintf("%s  ) %s", ind, st))
+	out = append(out, fmt.Sprintf("%s  ) %s", ind, ef.init))
+	if hasRet {
+		out = append(out, fmt.Sprintf("%smatch %s with", ind, ef.rv))
+		out = append(out, fmt.Sprintf("%s| some r => %s", ind, t.ret("r")))
+		out = append(out, fmt.Sprintf("%s| none =>", ind))
+		out = append(out, t.stmts(rest, ind+"  ")...)
+		return out, true
+	}
 	out = append(out, t.stmts(rest, ind)...)
 	return out, true
 }
@@ -2196,6 +2228,7 @@ func (t *itr) countLoop(x *ast.ForStmt, rest []ast.Stmt, ind string) ([]string, 
 	outer := []string{}
 	declared := map[string]bool{jv.Name: true}
 	bad := false
+	hasRet := false
 	ast.Inspect(x.Body, func(n ast.Node) bool {
 		switch s := n.(type) {
 		case *ast.AssignStmt:
@@ -2217,7 +2250,10 @@ func (t *itr) countLoop(x *ast.ForStmt, rest []ast.Stmt, ind string) ([]string, 
 				}
 			}
 		case *ast.ReturnStmt:
-			bad = true
+			if len(t.curResT) == 0 {
+				bad = true
+			}
+			hasRet = true
 		case *ast.ForStmt, *ast.RangeStmt:
 			if !t.joinIf[t.curFn] {
 				bad = true // nested loops only in the functions translated last
@@ -2252,21 +2288,55 @@ func (t *itr) countLoop(x *ast.ForStmt, rest []ast.Stmt, ind string) ([]string, 
 		out = append(out, ind+l)
 	}
 	st := t.stateTuple()
+	ef := t.earlyFold(hasRet, st)
 	jN := jv.Name + "N"
 	bound := "toInt.toNat"
 	if unsignedCtr {
 		bound = "toNat"
 	}
-	out = append(out, fmt.Sprintf("%slet %s ← (List.range ((%s).%s)).foldlM (fun %s %s => do", ind, st, nv, bound, st, jN))
+	out = append(out, fmt.Sprintf("%slet %s ← (List.range ((%s).%s)).foldlM (fun %s %s => do", ind, ef.bind, nv, bound, ef.pat, jN))
 	bi := ind + "    "
+	if hasRet {
+		out = append(out, fmt.Sprintf("%sif %s.isSome then pure %s else", bi, ef.rv, ef.bind))
+	}
 	out = append(out, fmt.Sprintf("%slet %s : BitVec 32 := BitVec.ofNat 32 %s", bi, jv.Name, jN))
-	savedLoopVar := t.loopVar
-	t.loopVar = st
+	savedLoopVar, savedEarly := t.loopVar, t.earlyItems
+	t.loopVar = ef.cont
+	if hasRet {
+		t.earlyItems = ef.items
+	}
 	out = append(out, t.stmts(x.Body.List, bi)...)
-	t.loopVar = savedLoopVar
-	out = append(out, fmt.Sprintf("%s  ) %s", ind, st))
+	t.loopVar, t.earlyItems = savedLoopVar, savedEarly
+	out = append(out, fmt.Sprintf("%s  ) %s", ind, ef.init))
+	if hasRet {
+		out = append(out, fmt.Sprintf("%smatch %s with", ind, ef.rv))
+		out = append(out, fmt.Sprintf("%s| some r => %s", ind, t.ret("r")))
+		out = append(out, fmt.Sprintf("%s| none =>", ind))
+		out = append(out, t.stmts(rest, ind+"  ")...)
+		return out, true
+	}
 	out = append(out, t.stmts(rest, ind)...)
 	return out, true
+}
+
+// earlyFold: the shapes of a loop fold with (hasRet) or without a recorded early return
+type earlyFoldT struct{ bind, pat, init, cont, items, rv string }
+
+func (t *itr) earlyFold(hasRet bool, st string) earlyFoldT {
+	if !hasRet {
+		return earlyFoldT{bind: st, pat: st, init: st, cont: st}
+	}
+	items := strings.TrimSuffix(strings.TrimPrefix(st, "("), ")")
+	rt := paren(strings.Join(t.curResT, " × "))
+	rv := t.tmp("ret")
+	holes := strings.Repeat("_ × ", strings.Count(items, ",")+1)
+	return earlyFoldT{
+		bind:  fmt.Sprintf("(%s, %s)", items, rv),
+		pat:   fmt.Sprintf("((%s, %s) : %sOption %s)", items, rv, holes, rt),
+		init:  fmt.Sprintf("(%s, none)", items),
+		cont:  fmt.Sprintf("(%s, (none : Option %s))", items, rt),
+		items: items, rv: rv,
+	}
 }
 
 // retVals renders the operands of a return statement as one Lean value
@@ -2698,6 +2768,11 @@ func genPools(repo string, tiny bool) (string, []string) {
 	t.tokField = map[string]string{"archNode.neighbors.Get": "nodeNeighborGetF", "archNode.neighbors.Set": "nodeNeighborSetF"}
 	// query iteration (ecs/query.go): the cached-list and node-list walks; the batch walk and the node walk stay parameters
 	t.structs["Query"] = true
+	t.structs["batchArchetypes"] = true
+	t.assertExt = map[string]string{"batchArchetypes": "asBatchF"}
+	for _, f := range []string{"Query.countEntities", "Query.Count", "Query.entityAt", "Query.EntityAt"} {
+		t.joinIf[f] = true
+	}
 	t.tokens["archetypeAccess"] = true
 	t.worldExt["Query.nextBatch"] = "nextBatchF"
 	t.worldExt["Query.nextNodeOrArchetype"] = "nextNodeF"
@@ -2717,7 +2792,7 @@ func genPools(repo string, tiny bool) (string, []string) {
 	t.structs["EntityEvent"] = true
 	t.effExt["archetype.Remove"] = "archRemoveF"
 	t.nilChecks = map[string]bool{}
-	for _, f := range []string{"World.findArchetypeSlow", "World.findOrCreateArchetypeSlow", "World.findOrCreateArchetype", "World.NewEntity", "World.notifyExchange", "World.exchange", "World.newEntitiesNoNotify", "World.removeEntities", "World.getExchangeMask", "World.exchangeNoNotify", "World.createArchetype", "World.setRelation", "World.RemoveEntity", "World.removeArchetype", "World.cleanupArchetype", "World.cleanupArchetypes", "World.createEntity", "World.createEntities", "World.Has", "World.HasUnchecked", "World.Mask",
+	for _, f := range []string{"Query.countEntities", "Query.Count", "Query.entityAt", "Query.EntityAt", "World.findArchetypeSlow", "World.findOrCreateArchetypeSlow", "World.findOrCreateArchetype", "World.NewEntity", "World.notifyExchange", "World.exchange", "World.newEntitiesNoNotify", "World.removeEntities", "World.getExchangeMask", "World.exchangeNoNotify", "World.createArchetype", "World.setRelation", "World.RemoveEntity", "World.removeArchetype", "World.cleanupArchetype", "World.cleanupArchetypes", "World.createEntity", "World.createEntities", "World.Has", "World.HasUnchecked", "World.Mask",
 		"World.relationError", "World.checkRelation", "World.getRelation", "World.getRelationUnchecked"} {
 		t.nilChecks[f] = true
 	}
@@ -2732,7 +2807,7 @@ func genPools(repo string, tiny bool) (string, []string) {
 	}
 	t.view = map[string][]string{"World": {"nodePointers", "filterCache", "locks", "entityPool", "resources", "entities", "targetEntities", "archetypes", "nodes", "relationNodes", "listener", "archetypeData", "registry", "config"},
 		"Config": {"CapacityIncrement", "RelationCapacityIncrement"},
-		"Query": {"nodeArchetypes", "filter", "access", "archetype", "archetypes", "entityIndex", "entityIndexMax", "archIndex", "nodeIndex", "count", "lockBit", "isFiltered", "isBatch"}}
+		"Query": {"nodeArchetypes", "nodes", "filter", "access", "archetype", "archetypes", "entityIndex", "entityIndexMax", "archIndex", "nodeIndex", "count", "lockBit", "isFiltered", "isBatch"}}
 	t.structs["World"] = true
 	t.tokExt = map[string]string{"archetype.Mask": "archMaskF", "archetype.RelationTarget": "archTargetF", "archetype.HasRelation": "archHasRelationF"}
 	t.ifaceExt = map[string]string{"Matches": "matchesF", "Len": "archsLenF", "Get": "archsGetF", "Subscriptions": "lstSubsF", "Components": "lstCompsF"}
@@ -2755,6 +2830,7 @@ func genPools(repo string, tiny bool) (string, []string) {
 		"archSetEntityF":       {"eff.archSetEntity", "Ext → Option Nat → BitVec 32 → Entity → Ext × Unit"},
 		"staleF":               {"stale.entityIndex", "Nat → entityIndex"},
 		"archResetF":           {"eff.archReset", "Ext → Option Nat → Ext × Unit"},
+		"asBatchF":             {"assert.batch", "GoAny → Option batchArchetypes"},
 		"nextBatchF":           {"eff.nextBatch", "Ext → Query → Ext × Query × Bool"},
 		"nextNodeF":            {"eff.nextNode", "Ext → Query → Ext × Query × Bool"},
 		"closeQueryF":          {"eff.closeQuery", "Ext → Query → Ext × Query"},
@@ -2807,7 +2883,7 @@ func genPools(repo string, tiny bool) (string, []string) {
 			fmt.Fprintf(&sb, "def MaskTotalBits : Nat := %s\n\n", k.Val().ExactString())
 		}
 	}
-	for _, s := range []string{"Entity", "entityPool", "bitPool", "lockMask", "componentRegistry", "Resources", "bitSet", "idMap", "intPool", "pointers", "CachedFilter", "cacheEntry", "Cache", "Config", "entityIndex", "EntityDump", "EntityEvent", "World", "Query"} {
+	for _, s := range []string{"Entity", "entityPool", "bitPool", "lockMask", "componentRegistry", "Resources", "bitSet", "idMap", "intPool", "pointers", "CachedFilter", "cacheEntry", "Cache", "Config", "entityIndex", "EntityDump", "EntityEvent", "World", "batchArchetypes", "Query"} {
 		t.emitStruct(&sb, s)
 	}
 	funcs := []string{
@@ -2829,6 +2905,7 @@ func genPools(repo string, tiny bool) (string, []string) {
 		"Entity.IsZero", "World.removeArchetype", "World.cleanupArchetype", "World.cleanupArchetypes", "World.RemoveEntity",
 		"World.createArchetype", "World.setRelation", "World.getExchangeMask", "World.exchangeNoNotify", "World.removeEntities", "World.newEntitiesNoNotify", "World.notifyExchange", "World.exchange", "World.NewEntity",
 		"World.findArchetypeSlow", "World.findOrCreateArchetypeSlow", "World.findOrCreateArchetype",
+		"batchArchetypes.Get", "batchArchetypes.Len", "Query.countEntities", "Query.Count", "Query.entityAt", "Query.EntityAt",
 		"Query.checkNext", "Query.setArchetype", "Query.stepArchetype", "Query.nextArchetypeSimple", "Query.nextArchetypeFiltered", "Query.nextArchetype", "Query.Next",
 	}
 	// which functions need the uninterpreted-function parameters (directly or through a callee)
